@@ -21,8 +21,7 @@ package builder
 //@ decreases width
 
 //@ func (data/builder.hashBits).Slice
-//@ requires 1 <= width && width <= 62
-//@ requires 0 <= offset && offset <= len(hb)*8
+//@ domain in-range: 1 <= width && width <= 62 && 0 <= offset && offset <= (1 << 40)
 //@ ensures err == nil ==> isBits(result, hb, offset, width)
 //@ ensures err == nil <==> offset + width <= len(hb)*8
 //@ assigns nothing
@@ -95,6 +94,7 @@ package builder
 //@ inst prev-stored: i: i
 
 //@ func (*data/builder.shard).serialize
+//@ prop C08 C10
 //@ ensures any-write-failure-fails-the-build: (err == nil ==> storeFailed == old(storeFailed)) && (old(storeFailed) ==> storeFailed)
 //@ ensures error-implies-nil-link: err != nil ==> result0 == nil
 //@ ensures link-implies-stored: err == nil ==> result0 != nil && stored(result0)
@@ -106,6 +106,8 @@ package builder
 //@ at call data/builder.BuildUnixFSDirectoryEntry#1 assert child-shard-stored-before-parent: stored(callee_hash)
 
 //@ func data/builder.BuildUnixFSShardedDirectory
+//@ prop C08 C10
+//@ domain permitted-fanout: 8 <= size && size <= 1024
 //@ ensures any-write-failure-fails-the-build: (err == nil ==> storeFailed == old(storeFailed)) && (old(storeFailed) ==> storeFailed)
 //@ ensures error-implies-nil-link: err != nil ==> result0 == nil
 //@ ensures link-implies-stored: err == nil ==> result0 != nil && stored(result0)
@@ -159,3 +161,11 @@ package builder
 //@ func data/builder.fileTreeRecursive$1
 //@ may_panic
 //@ at call data/builder.FileSize#1 assert file-size-is-content-total: callee_fileSize == totalBytes(children)
+
+// ---------------------------------------------------------------------------------------------
+// C08 / C10: every link of a shard block is named <bucket index as exactly `width` upper-case hex
+// digits><entry name>, and width is the number of hex digits of size-1. A fixed width makes the
+// prefixed names of distinct (bucket, name) pairs distinct, which is what lets the codec's sort
+// produce one canonical block whatever order the buckets were visited in.
+//@ props C08 C10
+//@ typeinv data/builder.shard: 1 <= self.sizeLg2 && self.sizeLg2 <= 10 && self.size == (1 << self.sizeLg2) && self.children != nil && 1 <= self.width && self.width <= 14 && self.size - 1 < (1 << (4 * self.width)) && (self.width == 1 || (1 << (4 * (self.width - 1))) <= self.size - 1)
